@@ -101,6 +101,9 @@ class C10Machine(Machine):
             cp = cp[:len(cp) - 260] + cp[len(cp) - 260::26]
             up = up[:len(up) - 260] + up[len(up) - 260::26]
         self.strings, self.pairs = observe.probe_sets(cp, up, config["id_pool"], config["delimiters"], max_ids=2, compact=True)
+        # the cells of the bulk observation: a spread of the probe strings (line breaks and NULs are left to C16)
+        ok = [x for x in self.strings if x and not any(ch in x for ch in "\r\n\x00")]
+        self.bulk_cells = ok[::max(1, len(ok) // 24)][:30]
         self.last_was_derivation = None
         self.last_mutation = None
         self.last_derivation_op = None
@@ -448,8 +451,77 @@ class C10Machine(Machine):
     #   cold: the structure only, no query made at all since the converter was created / last modified.
     # A re-check reads the structure first (nothing but the judged calls happened since the baseline),
     # then asks the queries, then settles a new warm baseline.
-    def _warm(self, conv):
+    def _answers(self, conv):
         ans = observe.answers(conv, self.strings, self.pairs, full=False)
+        ans["bulk"] = self._bulk(conv)
+        return ans
+
+    def _bulk(self, conv):
+        """The bulk functions as queries of a converter: one data-frame call and one file call over a
+        column of probe cells (a converter's answers "to every query" include what pd_* / file_* make of a
+        cell; state that only the bulk paths keep is invisible to the scalar methods)."""
+        import csv
+        import io
+        import os
+
+        import pandas as pd
+
+        cells = self.bulk_cells
+
+        def frame():
+            # (expansion: only cells that have the converter's delimiter - the others make pd_expand raise)
+            d = conv.delimiter
+            df = pd.DataFrame({"c": [x for x in cells if d in x]})
+            try:
+                conv.pd_expand(df, "c", target_column="t")
+            except Exception as e:  # noqa: BLE001
+                return ["exc", type(e).__name__]
+            return ["ok", [None if pd.isna(x) else x for x in df["t"]]]
+
+        def file():
+            path = os.path.join(self._bulk_dir(), "cells.tsv")
+            with open(path, "w", newline="", encoding="utf-8") as f:
+                csv.writer(f, delimiter="\t").writerows([[x] for x in cells])
+            try:
+                conv.file_compress(path, 0, header=False)
+            except Exception as e:  # noqa: BLE001
+                return ["exc", type(e).__name__]
+            with open(path, newline="", encoding="utf-8") as f:
+                return ["ok", [row[0] if row else "" for row in csv.reader(f, delimiter="\t")]]
+
+        return {"pd_expand": frame(), "file_compress": file()}
+
+    def _bulk_dir(self):
+        if getattr(self, "_bdir", None) is None:
+            import tempfile
+
+            import os
+
+            shm = "/dev/shm"
+            self._bdir = tempfile.mkdtemp(prefix="c10bulk_", dir=shm if os.path.isdir(shm) and os.access(shm, os.W_OK) else None)
+        return self._bdir
+
+    def close(self):
+        if getattr(self, "_bdir", None) is not None:
+            import shutil
+
+            shutil.rmtree(self._bdir, ignore_errors=True)
+            self._bdir = None
+
+    def _settle(self, e):
+        """The harness itself just queried this converter: read its structure again, so that what its OWN
+        lookups did to the converter (a self-organising list, a lazily sorted one) is in the baseline."""
+        if e is not None and e.conv is not None and e.lite is not None:
+            e.lite["structure"] = observe.structure(e.conv)
+
+    def _entry_of(self, conv):
+        for e in self.entries.values():
+            if e.conv is conv:
+                return e
+        return None
+
+    def _warm(self, conv):
+        ans = self._answers(conv)
         return {"structure": observe.structure(conv), "answers": ans}
 
     def _cold(self, conv):
@@ -465,7 +537,7 @@ class C10Machine(Machine):
         pre = observe.structure(e.conv)
         if pre != e.lite["structure"]:
             return observe.diff(e.lite["structure"], pre, path="/structure")
-        ans = observe.answers(e.conv, self.strings, self.pairs, full=False)
+        ans = self._answers(e.conv)
         if e.lite["answers"] is not None and ans != e.lite["answers"]:
             return observe.diff(e.lite["answers"], ans, path="/answers")
         if e.lite["answers"] is None:
@@ -654,7 +726,7 @@ class C10Machine(Machine):
             return {"derived": h, "records": len(result.records)}
         self.last_was_derivation = None
         self._note(kind, "raised")
-        return {"raised": type(err).__name__}
+        return {"raised": True}
 
     def _reach_after_derivation(self, kind, op, hs, result):
         # rare-condition probes, computed from before/after records only
@@ -687,6 +759,7 @@ class C10Machine(Machine):
             conv = self.entries[hs[0]].conv
             if any(conv.is_uri(u) for u in op["uris"]):
                 self.probe("discover_with_known_uris")
+            self._settle(self.entries[hs[0]])
 
     def _mutate(self, op):
         c = self.curies
@@ -730,6 +803,10 @@ class C10Machine(Machine):
             self.fault("mutation_rejected")
         site = SITE.get(e.origin, e.origin) + "->" + op["kind"]
         # stated direction 2: nothing leaks back into any (transitive) input of the mutated converter
+        # (first the alternating lookups - modified converter, then its input, before anything else asks the
+        # input - then every ancestor in full)
+        if anc and not op.get("cold"):
+            self._alternate(e.conv, anc, rd["prefix"], site, "leak_to_ancestor", op)
         for a in anc:
             ae = self.entries[a]
             if ae.conv is None:
@@ -738,8 +815,6 @@ class C10Machine(Machine):
             if d is not None:
                 raise Violation(PROP, "leak_to_ancestor", site,
                                 {"mutated": h, "ancestor": a, "diff": d, "op": op})
-        if anc and not op.get("cold"):
-            self._alternate(e.conv, anc, rd["prefix"], site, "leak_to_ancestor", op)
         if err is None and rd.get("pattern") and anc:
             self.probe("followup_add_with_pattern")
         if err is None and op["merge"] and hit_inherited and anc:
@@ -751,7 +826,7 @@ class C10Machine(Machine):
         e.n_mut += 1
         self._refresh_unstated(exclude=set(anc) | {h})
         self._note("mutate_" + op["kind"], "rejected" if err else "accepted")
-        return {"mutated": h, "rejected": type(err).__name__ if err else None}
+        return {"mutated": h, "rejected": bool(err)}
 
     def _alternate(self, near, far_ids, hint, site, kind_of_violation, op):
         """Ask a converter and its inputs / ancestors the SAME string in immediately consecutive lookups
@@ -761,8 +836,15 @@ class C10Machine(Machine):
         k = self.steps % max(1, len(self.strings))
         cands += [self.strings[k], self.strings[(k + 7) % len(self.strings)]]
         pcands = [pr for pr in self.pairs if hint and pr[0] == hint][:1] + [self.pairs[self.steps % len(self.pairs)]]
-        for a in [x for x in far_ids if self.entries[x].conv is not None][:3]:
+        for a in [x for x in far_ids if self.entries[x].conv is not None and self.entries[x].lite["answers"] is not None][:3]:
             ae = self.entries[a]
+            # the same table through the bulk functions, derived converter first, its input next
+            self._bulk(near)
+            gotb = self._bulk(ae.conv)
+            if gotb != ae.lite["answers"]["bulk"]:
+                raise Violation(PROP, kind_of_violation, site,
+                                {"ancestor": a, "bulk_conversion_right_after_the_other_converter": True,
+                                 "diff": observe.diff(ae.lite["answers"]["bulk"], gotb), "op": op})
             for x in dict.fromkeys(cands):
                 observe.answers(near, [x], [], full=False)
                 got = observe.answers(ae.conv, [x], [], full=False)["strings"][x]
@@ -780,6 +862,8 @@ class C10Machine(Machine):
                     raise Violation(PROP, kind_of_violation, site,
                                     {"ancestor": a, "asked_right_after_the_other_converter": list(pr),
                                      "diff": observe.diff(want, got), "op": op})
+            self._settle(ae)
+        self._settle(self._entry_of(near))
         self.probe("alternating_lookups")
 
     def _refresh_unstated(self, exclude):
